@@ -145,8 +145,8 @@ Section CropN.
   (* ------------------------------------------------------------------ *)
   (* 9. daily gross assimilation from the light-response values (crop.go:919-978, inside radia()).
         DGAC / DGAO (assimilation of a clear / overcast day), DLE, DRC, MAINTS*TEFF come from the radiation and
-        light-response code that is not modelled.  NOT tied bit for bit (these are locals of the unexported radia):
-        the hypothesis of the theorem and its conclusion GTW >= 0 are evaluated on every traced crop day instead. *)
+        light-response code that is not modelled.  Tied bit for bit through the harness' shadow of radia() (recorder for the locals,
+        shadow = real kernel via the hook VerifRadia on every case): C09Corr.assim_check. *)
   Record as_in := { as_rad : T; as_sund : T; as_dle : T; as_dgac : T; as_dgao : T; as_drc : T;
                     as_trrel : T; as_vswell : T; as_maint_pot : T (* MAINTS*TEFF *); as_cold : bool (* TEMP < MINTMP *) }.
 
